@@ -52,7 +52,7 @@ def _summ(O, rec, j, engine, extra=None):
     """small picklable summary of one judged run"""
     unl = {}
     for ent, u in j.unlocked.items():
-        unl[ent] = dict(muts=u["muts"], reads=u["reads"], keys=sorted(u["keys"]),
+        unl[ent] = dict(muts=u["muts"], reads=u["reads"], keys=sorted(u["keys"]), inner=sorted(u["inner"]),
                         sites=sorted(u["sites"].items(), key=lambda x: -x[1])[:6])
     d = dict(engine=engine, events=j.events, kinds=j.kinds, sections=j.sections, depth=j.max_depth, threads=j.threads,
              lock_errors=j.lock_errors[:5], mismatch=j.mismatch, final_lock=j.final_lock, unlocked=unl,
@@ -154,6 +154,14 @@ class Findings:
 
     def __init__(self):
         self.by = {}
+        self.surface = {}      # (engine, entry) -> dict(inner=set, keys=set): the deterministic public-surface scripts only
+
+    def add_surface(self, summ, script):
+        for ent, u in summ["unlocked"].items():
+            f = self.surface.setdefault((summ["engine"], ent), dict(inner=set(), keys=set(), scripts=set()))
+            f["inner"].update(u["inner"])
+            f["keys"].update(u["keys"])
+            f["scripts"].add(script)
 
     def add(self, summ, where):
         for ent, u in summ["unlocked"].items():
@@ -182,6 +190,16 @@ class Findings:
             case = dict(kind="unlocked-state-access", engine=engine, entry=ent)
             if ctx.violation(what, case):
                 n += 1
+        # the deterministic surface scripts say exactly WHICH functions touch WHAT without the lock under each entry point:
+        # an additional unlocked site under an entry point that is already listed is a different case
+        for (engine, ent), f in sorted(self.surface.items()):
+            what = ("%s, public-surface scripts (%s): entered through %s, these functions touch the sync state without the state "
+                    "lock: %s (fields/containers: %s)" % (engine, ", ".join(sorted(f["scripts"])), ent, ", ".join(sorted(f["inner"])),
+                                                          ", ".join(sorted(f["keys"]))))
+            case = dict(kind="unlocked-state-access/surface", engine=engine, entry=ent, accessors=sorted(f["inner"]),
+                        touched=sorted(f["keys"]))
+            if ctx.violation(what, case):
+                n += 1
         return n
 
 
@@ -189,7 +207,7 @@ def _model_stream(ctx, cov):
     from .. import families_c15 as O
     m = O.thread_model()
     rng = ctx.sub_rng("model")
-    n = 3000 if ctx.quick else 30000
+    n = 3000 if ctx.quick else 20000
     stats = dict(traces=0, valid=0, malformed=0, events=0, with_lock_errors=0, with_violations=0, serialised=0,
                  rlock_runs=0, rlock_events=0, rlock_max_depth=0)
     d = fw.Distinct()
@@ -218,7 +236,7 @@ def _model_stream(ctx, cov):
                               no_input=True, theorem="C15_serialise_correct vs extracted serialise")
                 break
     # the model lock against a real RLock under real threads
-    for i in range(60 if ctx.quick else 600):
+    for i in range(60 if ctx.quick else 300):
         rec = O.real_rlock_run("%s/%d" % (ctx.seed, i))
         j = O.judge(rec, m)
         stats["rlock_runs"] += 1
@@ -262,6 +280,8 @@ def _corpus_stream(ctx, cov, findings):
         engine = "SmartCloudSync" if doc.get("smart") else "CloudSync"
         summ = _summ(O, rec, j, engine)
         findings.add(summ, "corpus/C15/" + name)
+        if name.startswith("surface-"):
+            findings.add_surface(summ, name)
         if j.lock_errors or j.mismatch or j.final_lock != []:
             ctx.violation("corpus script %s: observed trace not well locked (%r), ownership mismatch %r, final lock %r"
                           % (name, j.lock_errors[:5], j.mismatch, j.final_lock), dict(kind="corpus-lock-tie", file=name),
@@ -297,12 +317,12 @@ def run(ctx):
         total += n_model
         total += _corpus_stream(ctx, cov, findings)
         # ---- (i) sequential engine runs of every clean-domain family (wall-clock budget per family)
-        seq_plan = [("one_sided", 700, 20000, 5, 90), ("disjoint", 700, 20000, 5, 90), ("conflicts", 400, 10000, 4, 60),
-                    ("confinement", 400, 10000, 4, 60), ("restarts", 300, 8000, 6, 90)]
+        seq_plan = [("one_sided", 700, 20000, 5, 70), ("disjoint", 700, 20000, 5, 70), ("conflicts", 400, 10000, 4, 45),
+                    ("confinement", 400, 10000, 4, 45), ("restarts", 300, 8000, 6, 70)]
         for fam, nq, nt, bq, bt in seq_plan:
             n = nq if ctx.quick else nt
             t0 = time.time()
-            runs, left = ex.run("seq", fam, n, ctx.seed, bq if ctx.quick else bt, chunk=10 if ctx.quick else 50)
+            runs, left = ex.run("seq", fam, n, ctx.seed, bq if ctx.quick else bt, chunk=(5 if fam == "restarts" else 10) if ctx.quick else 25)
             st = dict(runs=len(runs), events=0, acq=0, mut=0, read=0, tau=0, sections=0, user_ops=0, provider_calls=0,
                       monitor_rejected=0, unlocked_runs=0, cursor_row_accesses=0, cursor_row_accesses_without_lock=0, max_depth=0)
             for s in runs:
@@ -339,7 +359,7 @@ def run(ctx):
                 samples.append(dict(stream="seq", family=fam, index=s["index"], events=s["events"], kinds=s["kinds"],
                                     sections=s["sections"], unlocked=sorted(s["unlocked"]), monitor=s["monitor"]))
         # ---- (ii) production-style runs
-        thr_plan = [("thr_plain", 24, 900, 20.0, 45, 300), ("thr_forget", 4, 150, 20.0, 25, 90), ("thr_smart", 12, 450, 12.0, 30, 150)]
+        thr_plan = [("thr_plain", 24, 900, 20.0, 45, 240), ("thr_forget", 4, 150, 20.0, 25, 60), ("thr_smart", 12, 450, 12.0, 30, 120)]
         for fam, nq, nt, budget, bq, bt in thr_plan:
             n = nq if ctx.quick else nt
             t0 = time.time()
@@ -397,10 +417,13 @@ def run(ctx):
                     inconclusive += 1
                 if fam != "thr_smart":
                     # C01 oracle: at the stop when the run was quiet, and in any case after the leftover work was finished
+                    # (`busy` is momentarily false while an event is between the provider's cursor and the pending set, so a
+                    # run can be stopped a moment early on a loaded machine: trees that differ AT the stop are counted, and are
+                    # a failure only if finishing the leftover work step by step does not make them equal)
                     bad = None
                     if not timed_out and not s["agree_at_stop"]:
-                        bad = "the engine reported not busy, was stopped, and the two trees differ"
-                    elif s["completion_rounds"] is not None and not s["agree_final"]:
+                        st["stopped_before_converged"] = st.get("stopped_before_converged", 0) + 1
+                    if s["completion_rounds"] is not None and not s["agree_final"]:
                         bad = "after the stop the leftover work was finished step by step and the two trees still differ"
                     elif s["completion_rounds"] is None and not timed_out:
                         bad = "after the stop the engine never became quiet (300 rounds)"
@@ -438,3 +461,26 @@ def run(ctx):
     tb = list(TRUSTED) + ["axioms per theorem as printed by Print Assumptions: " +
                           (", ".join(cov.get("axioms_used", [])) or "none (closed under the global context)")]
     return ctx.finish(tb)
+
+
+def corpus_case_ids():
+    """case ids (framework.case_id) of everything the deterministic corpus flags on the current /repo tree:
+         PYTHONPATH=/repo:. PYTHONHASHSEED=0 /venv/bin/python -m harness.checks.c15
+       prints {id: case} — what a known_findings.json entry for P-6 has to list while the defect is open"""
+    ctx = fw.Ctx("C15", "quick", 0)
+    ctx.coverage["streams"] = {}
+    f = Findings()
+    _corpus_stream(ctx, ctx.coverage, f)
+    out = {}
+    for (engine, ent) in sorted(f.by):
+        c = dict(kind="unlocked-state-access", engine=engine, entry=ent)
+        out[fw.case_id(c)] = c
+    for (engine, ent), x in sorted(f.surface.items()):
+        c = dict(kind="unlocked-state-access/surface", engine=engine, entry=ent, accessors=sorted(x["inner"]),
+                 touched=sorted(x["keys"]))
+        out[fw.case_id(c)] = c
+    return out
+
+
+if __name__ == "__main__":
+    print(json.dumps(corpus_case_ids(), indent=1))
